@@ -7,8 +7,78 @@
     meaning; a lost end-of-stream marker shows as a hang, a lost element as a wrong result). *)
 From Noir Require Import Model.Pipe Corr.Canon.
 From Noir Require Corr.C01.
+From Noir Require Import Model.Net Proofs.NetDagProofs.
+From Noir Require Gen.Consts.
 From Coq Require Import NArith List Bool Arith.
 Import ListNotations.
+
+(** ---- third kind of case: the execution graph of an acyclic one-host job as the real
+    scheduler derived it (hook `verif_execution_graph`), turned into a [dag] of
+    Proofs/NetDagProofs.v; [dag_okb] of it is the premise of C04_dag_no_deadlock /
+    C04_dag_job_terminates, so this ties the theorems' static hypothesis to the code. ---- *)
+Record gdump := {
+  g_nodes : list (nat * nat);                       (* (block id, replica) sorted by block, replica *)
+  g_edges : list (nat * nat);                       (* job graph: (from block, to block) *)
+  g_links : list ((nat * nat) * (nat * nat))        (* execution graph: producer replica -> consumer replica *)
+}.
+
+Definition pair_eqb (a b : nat * nat) : bool := Nat.eqb (fst a) (fst b) && Nat.eqb (snd a) (snd b).
+Fixpoint index_of {X} (eqb : X -> X -> bool) (x : X) (l : list X) : option nat :=
+  match l with
+  | [] => None
+  | y :: l' => if eqb x y then Some 0%nat else option_map S (index_of eqb x l')
+  end.
+
+(** one channel per (consumer replica, previous block): consumer node index, previous block *)
+Definition g_chans (g : gdump) : list (nat * nat) :=
+  flat_map (fun '(i, n) => map (fun e => (i, fst e)) (filter (fun e => Nat.eqb (snd e) (fst n)) (g_edges g)))
+           (combine (seq 0 (length (g_nodes g))) (g_nodes g)).
+Definition node_idx (g : gdump) (n : nat * nat) : nat :=
+  match index_of pair_eqb n (g_nodes g) with Some i => i | None => length (g_nodes g) end.
+Definition chan_idx (g : gdump) (cons prev : nat) : nat :=
+  match index_of pair_eqb (cons, prev) (g_chans g) with Some i => i | None => length (g_chans g) end.
+
+(** channels a node writes to, in link order *)
+Definition g_outs (g : gdump) (i : nat) : list nat :=
+  let n := nth i (g_nodes g) (0, 0)%nat in
+  map (fun l => chan_idx g (node_idx g (snd l)) (fst n)) (filter (fun l => pair_eqb (fst l) n) (g_links g)).
+(** tables computed once per case (the evaluation is call-by-value) *)
+Definition outs_table (g : gdump) : list (list nat) := map (g_outs g) (seq 0 (length (g_nodes g))).
+Definition nprod_table (g : gdump) (outs : list (list nat)) : list nat :=
+  map (fun c => length (filter (fun o => existsb (Nat.eqb c) o) outs)) (seq 0 (length (g_chans g))).
+
+Definition cfg_of (g : gdump) (chans : list (nat * nat)) (outs : list (list nat)) (nprod : list nat) (i : nat) : rcfg :=
+  let n := nth i (g_nodes g) (0, 0)%nat in
+  let os := map (fun c => (c, c)) (nth i outs []) in
+  let cidx := fun prev => match index_of pair_eqb (i, prev) chans with Some c => c | None => length chans end in
+  let ins := map (fun e => cidx (fst e)) (filter (fun e => Nat.eqb (snd e) (fst n)) (g_edges g)) in
+  {| r_kind := match ins with
+               | [] => KSrc
+               | [c] => KOp1 c (nth c nprod 0%nat)
+               | [l; r] => KOp2 l (nth l nprod 0%nat) r (nth r nprod 0%nat)
+               | _ => KDemux 0            (* more than two inputs: not a shape of the engine *)
+               end;
+     r_outs := os; r_douts := os |}.
+
+Definition dag_of (g : gdump) : dag :=
+  let chans := g_chans g in
+  let outs := outs_table g in
+  let nprod := nprod_table g outs in
+  let cfgs := map (cfg_of g chans outs nprod) (seq 0 (length (g_nodes g))) in
+  let dflt := {| r_kind := KSrc; r_outs := []; r_douts := [] |} in
+  {| d_n := length (g_nodes g); d_nc := length chans;
+     d_cfg := fun i => nth i cfgs dflt; d_data := fun _ => [];
+     d_cons := fun c => fst (nth c chans (0, 0)%nat);
+     d_cap := fun _ => N.to_nat Consts.CHANNEL_CAPACITY |}.
+
+(** every replica of a block is fed on every input edge of the block (fails exactly for
+    known finding F11: a forward connection to a wider block) *)
+Definition all_inputs_fed (g : gdump) : bool :=
+  forallb (Nat.leb 1) (nprod_table g (outs_table g)).
+(** every link belongs to an edge and connects listed replicas *)
+Definition links_listed (g : gdump) : bool :=
+  forallb (fun l => existsb (pair_eqb (fst l)) (g_nodes g) && existsb (pair_eqb (snd l)) (g_nodes g) &&
+                    existsb (pair_eqb (fst (fst l), fst (snd l))) (g_edges g)) (g_links g).
 
 (** A second kind of case: the engineered two-host hash join of two parallel sources of
     harness/src/props/muxjoin.rs (finite input, finite user sleeps): host X with 2 cores, host
@@ -18,13 +88,15 @@ Inductive mj_outcome := MJDone (joined : N) | MJHang.
 
 Inductive case :=
 | KJob (c : C01.case)
-| KMuxJoin (cores : list nat) (early : bool) (expected : N) (o : mj_outcome).
+| KMuxJoin (cores : list nat) (early : bool) (expected : N) (o : mj_outcome)
+| KDag (g : gdump).
 
 Definition prop_ok (c : case) : bool :=
   match c with
   | KJob x => C01.prop_ok x
   | KMuxJoin _ _ expected (MJDone n) => N.eqb n expected
   | KMuxJoin _ _ _ MJHang => false
+  | KDag g => all_inputs_fed g      (* otherwise the unfed replicas panic at start-up (F11) *)
   end.
 
 (** known finding F13 (class 4): remote messages of one (block pair, host pair) share one
@@ -44,11 +116,13 @@ Definition known_class (c : case) : N :=
       | MJHang => if (Nat.leb 2 (length cores)) && (Nat.leb 17 (producers cores)) && early then 4%N else 0%N
       | MJDone _ => 0%N
       end
+  | KDag g => if all_inputs_fed g then 0%N else 2%N
   end.
 
 Definition corr_ok (c : case) : bool :=
   match c with
   | KJob x => C01.corr_ok x
   | KMuxJoin _ _ _ _ => prop_ok c || negb (N.eqb (known_class c) 0%N)
+  | KDag g => links_listed g && (dag_okb (dag_of g) || negb (all_inputs_fed g))
   end.
 Definition report (cs : list case) := classify corr_ok prop_ok known_class cs.
